@@ -20,7 +20,7 @@ import sympy as sp
 from ..core import Remap, AnchorMissing, Check, Undecided, calls_in, dotted, kwarg, own_nodes, src
 from ..flow import CFG
 from ..hydro import HY, TM, fn, hydro_extractor, n, th
-from ..nf import Ctx, eqx, has, match
+from ..nf import with_closure_temporaries, Ctx, eqx, has, match
 from ..terms import Extractor, ITE, is_zero
 
 LEVEL = "other"
@@ -254,20 +254,42 @@ def r03_3(chk: Check):
     SOL = _assigned_name(fo.node, ivp[0]) if len(ivp) == 1 else None
     VM = XI = TM_ = None
     if SOL is not None:
+        # component-wise definitions: `a, b = e1, e2` defines a by e1; `a, b = E` defines a by E[0]; copies of a name are followed
+        comp = []
         for st in own_nodes(fo.node):
-            if not isinstance(st, ast.Assign):
+            if not isinstance(st, ast.Assign) or len(st.targets) != 1:
                 continue
-            b = match(st, f"__VM = {SOL}.t[-1]", cx)
-            VM = b["VM"] if b else VM
-            b = match(st, f"__XI, __TM = {SOL}.y[:, -1]", cx)
-            if b:
-                XI, TM_ = b["XI"], b["TM"]
-            b = match(st, f"__XI = {SOL}.y[0, -1]", cx)
-            XI = b["XI"] if b else XI
-            b = match(st, f"__TM = {SOL}.y[1, -1]", cx)
-            TM_ = b["TM"] if b else TM_
+            t, v = st.targets[0], st.value
+            if isinstance(t, ast.Name):
+                comp.append((t.id, v, None))
+            elif isinstance(t, (ast.Tuple, ast.List)) and all(isinstance(e_, ast.Name) for e_ in t.elts):
+                if isinstance(v, (ast.Tuple, ast.List)) and len(v.elts) == len(t.elts):
+                    comp += [(e_.id, vv, None) for e_, vv in zip(t.elts, v.elts)]
+                else:
+                    comp += [(e_.id, v, k_) for k_, e_ in enumerate(t.elts)]
+        role = {}          # name -> 'v' | 'xi' | 'T'
+        for nm, v, k_ in comp:
+            if k_ is None and eqx(v, f"{SOL}.t[-1]", cx):
+                role[nm] = "v"
+            elif k_ is not None and eqx(v, f"{SOL}.y[:, -1]", cx):
+                role[nm] = ("xi", "T")[k_] if k_ < 2 else None
+            elif k_ is None and eqx(v, f"{SOL}.y[0, -1]", cx):
+                role[nm] = "xi"
+            elif k_ is None and eqx(v, f"{SOL}.y[1, -1]", cx):
+                role[nm] = "T"
+        changed = True
+        while changed:
+            changed = False
+            for nm, v, k_ in comp:
+                if k_ is None and isinstance(v, ast.Name) and v.id in role and nm not in role:
+                    role[nm] = role[v.id]
+                    changed = True
+        used = {x.id for x in ast.walk(with_closure_temporaries(S, fi).node) if isinstance(x, ast.Name)}
+        pick = {r_: [nm for nm, rr in role.items() if rr == r_ and nm in used] for r_ in ("v", "xi", "T")}
+        if all(len(v_) == 1 for v_ in pick.values()):
+            VM, XI, TM_ = pick["v"][0], pick["xi"][0], pick["T"][0]
     front_ok = None not in (VM, XI, TM_) and len({VM, XI, TM_}) == 3
-    val = ex.single(fi)
+    val = ex.single(with_closure_temporaries(S, fi))
     prm = _params(fi)
     tn, xs, vs, Ts = ex.sym(prm[0] if prm else "?"), ex.sym(XI or "?xi"), ex.sym(VM or "?v"), ex.sym(TM_ or "?T")
     mu = (xs - vs) / (1 - xs * vs)
